@@ -21,12 +21,24 @@ every public operation that returns or mutates a vector:
             promotion / rejection path
 plus the columns of sort / join / inner_join / full_join / aggregate / window / read_csv results on all two-column
 tables over a 9-column-content pool.
+  multi     ONE assignment of 2 or 3 values needing several different promotions, every ordered pair (and triple; quick: triples
+            on the bool and int? bases only) over {True, 7, 2.5, 1+2j, None} - so [1+2j, 2.5] into int and [2.5, 7] into bool
+            in both orders - into bool / int / int? / float / bool? vectors of length 3, through slices (forward, strided,
+            reversed), list / Vector masks, index lists / tuples / negative indices / index Vectors, with the values as list,
+            Vector (and tuple: thorough); and through a table: t[rows, 'v'], t[rows, 1], t[rows, 1:2] = Table, t[rows, :] = [cols],
+            t[rows, ('k', 'v')] = Table
+  aggdtype  aggregate and window result columns (sum / mean / min / max / count / stdev alone, all six together, the same
+            column requested twice) for 6 key columns x 14 value columns (bool, bool?, int?, float?, all-None, leading
+            None, complex?; int and float controls): truthful, write-back, and the reported dtype equals ordinary inference
+            on the produced values (one kind -> that kind; numeric mix -> highest rung; nothing but None -> object?;
+            nullable iff a None was produced)
 
 Oracle: harness.truthful(result) (every non-None element belongs to the reported kind, None only when nullable) and
 the equivalent write-back form: r[i] = r[i] is accepted for every i and leaves r.schema() unchanged.
 Operations that raise are outside the quantifier (skipped).  A source or operand vector that already lies (reported by its
 own 'ctor' case) is not fed to the other groups, so every reported key names the operation that introduced the lie.  Keys: C03:<call site>:truthful:<class> with class in
-{none-in-non-nullable, wrong-kind, int-subclass, no-dtype}; C03:<call site>:write-back-rejected / -changes-dtype.
+{none-in-non-nullable, wrong-kind, int-subclass, no-dtype}; C03:<call site>:write-back-rejected / -changes-dtype;
+C03:Table.<aggregate|window>:<fn>:dtype-not-inferred:<kind|nullable-flag>.
 """
 import io
 import itertools
@@ -353,8 +365,10 @@ def run_multi(case):
     k = len(vals)
     src = f'Vector({lit(base)})'
 
+    lite = bool(case.get('lite'))
+
     def forms(xs):
-        out = [('list', lambda: list(xs)), ('tuple', lambda: tuple(xs))]
+        out = [('list', lambda: list(xs))] + ([] if lite else [('tuple', lambda: tuple(xs))])     # quick: tuples left to thorough
         try:
             probe = Vector(list(xs))
             if not isinstance(probe, Table) and not truthful(probe):
@@ -407,7 +421,7 @@ def run_multi(case):
         except Exception:
             pass
         # both columns in one statement, the key column receiving the same values in reverse order
-        for fname, wrap in (('list', list), ('tuple', tuple)):
+        for fname, wrap in ((('list', list),) if lite else (('list', list), ('tuple', tuple))):
             t = mkt()
             try:
                 t[rs, :] = wrap([wrap(reversed(vals)), wrap(vals)])
@@ -515,8 +529,10 @@ def cases(tier, seed):
         yield {'op': 'csv', 'i': i}
     for base in MULTI_BASES:
         for k in (2, 3):
+            if q and k == 3 and base not in ('bool', 'int?'):
+                continue                     # quick: value triples on the lowest rung and on a nullable base only
             for combo in itertools.product(MULTI_VALUES, repeat=k):
-                yield {'op': 'multi', 'base': base, 'vals': lit(list(combo))}
+                yield dict({'op': 'multi', 'base': base, 'vals': lit(list(combo))}, **({'lite': True} if q else {}))
     for k in range(len(AGG_KEYS)):
         for v in range(len(AGG_VALUES)):
             for top in ('aggregate', 'window'):
@@ -557,8 +573,12 @@ if __name__ == '__main__':
               'operators with scalar / list / vector operands, comparisons, << and >>, casts, fillna / dropna / isna / to_object, '
               'sort_by, unique, pluck, T, copy, slices, masks, index lists, in-place assignment of every pool value at every position '
               'and by slice / mask / index list); columns of sort / join / aggregate / window / read_csv results on all two-column tables '
-              'over 9 column contents.  Each result: harness.truthful + write-back r[i] = r[i] accepted and dtype unchanged. '
+              'over 9 column contents; single multi-value assignments mixing several promotions in every order through slice / mask / '
+              'index list / index vector / table region; aggregate and window result dtypes against ordinary inference on the produced '
+              'values over 6 key x 14 value columns.  Each result: harness.truthful + write-back r[i] = r[i] accepted and dtype unchanged. '
               'distinct = (operation group, set of element types, length)',
          bound=lambda tier: {'pool': len(POOL), 'max_len_light_groups': 3, 'max_len_heavy_groups': 2 if tier == 'quick' else 3,
-                             'heavy_groups': GROUPS_HEAVY, 'table_column_pool': len(COLS)},
+                             'heavy_groups': GROUPS_HEAVY, 'table_column_pool': len(COLS), 'multi_value_pool': len(MULTI_VALUES),
+                             'multi_bases': list(MULTI_BASES), 'multi_triples_on': ['bool', 'int?'] if tier == 'quick' else list(MULTI_BASES),
+                             'agg_key_columns': len(AGG_KEYS), 'agg_value_columns': len(AGG_VALUES)},
          nontrivial=nontrivial)
